@@ -120,8 +120,17 @@ func (c *tqClient) Batch(remote string, bReq *batchRequest) (*BatchResponse, err
 
 	for _, obj := range bRes.Objects {
 		obj.Missing = missing[obj.Oid]
-		for _, a := range obj.Actions {
+		for rel, a := range obj.Actions {
+			if a == nil {
+				delete(obj.Actions, rel)
+				continue
+			}
 			a.createdAt = requestedAt
+		}
+		for rel, a := range obj.Links {
+			if a == nil {
+				delete(obj.Links, rel)
+			}
 		}
 	}
 
